@@ -12,7 +12,13 @@ for line in open(os.path.join(root, 'RESULTS.tsv')):
 print('| seed | needs to manifest | latest quick result |')
 print('|---|---|---|')
 for s in sorted(d for d in os.listdir(root) if os.path.isdir(os.path.join(root, d))):
+    if json.load(open(os.path.join(root, s, "meta.json"))).get("retired") and False:
+        continue
     m = json.load(open(os.path.join(root, s, 'meta.json')))
     r = last.get(s)
+    if m.get('retired'):
+        res = 'retired (%s); last result on its base: %s' % ('line rewritten by a fix', r[3] if r else 'n/a')
+        print('| %s | %s | %s |' % (s, m.get('needs_to_manifest', '').replace('|', '/'), res))
+        continue
     res = 'not run' if r is None else {'exit=1': 'caught (exit 1, %s)' % r[4], 'exit=0': '**missed** (exit 0)', 'exit=3': 'harness error (exit 3)'}.get(r[3], r[3])
     print('| %s | %s | %s |' % (s, m.get('needs_to_manifest', '').replace('|', '/'), res))
